@@ -117,6 +117,14 @@ def run_property(prop: str, repo_root: str, tier: str, only_key: str | None = No
         print(f"KNOWN-FINDING: property={prop} {known_keys[(ob.rule, ob.key)]['what']} [{ob.rule} {ob.key} at {ob.where}]")
 
     replay_paths = []
+    uniq: dict[tuple[str, str], list] = {}
+    for ob in violations:
+        uniq.setdefault((ob.rule, ob.key), []).append(ob)
+    violations = [v[0] for v in uniq.values()]
+    for ob in violations:
+        n_same = len(uniq[(ob.rule, ob.key)])
+        if n_same > 1:
+            ob.detail += f"  (+{n_same - 1} more instance(s) with the same finding key)"
     for i, ob in enumerate(violations):
         path = os.path.join(REPLAY_DIR, f"{prop}-{i}.json")
         with open(path, "w", encoding="utf-8") as fh:
